@@ -476,3 +476,106 @@ Proof.
   pose proof (json_collect_ok ins) as Hok. pose proof (json_collect_entries ins H) as He.
   destruct (json_collect ins) as [es ok]. simpl in *. rewrite H in Hok. subst ok. rewrite He. reflexivity.
 Qed.
+
+(* ---------- page selection: the stdout decision ---------- *)
+From Coq Require Import Permutation.
+
+Lemma last_cons : forall (A : Type) (l : list A) (a d : A), last (a :: l) d = last l a.
+Proof.
+  induction l as [|b l IH]; intros a d; [reflexivity|].
+  change (last (a :: b :: l) d) with (last (b :: l) d). rewrite (IH b d), (IH b a). reflexivity.
+Qed.
+
+Lemma count_loop_acc : forall m nr c,
+  fold_left count_step m (nr, c) = (last (selected m) nr, (c + List.length (selected m))%nat).
+Proof.
+  induction m as [|[p b] m IH]; intros nr c.
+  - simpl. rewrite Nat.add_0_r. reflexivity.
+  - change (fold_left count_step ((p, b) :: m) (nr, c))
+      with (fold_left count_step m (count_step (nr, c) (p, b))).
+    destruct b.
+    + change (count_step (nr, c) (p, true)) with (p, S c). rewrite IH.
+      change (selected ((p, true) :: m)) with (p :: selected m).
+      rewrite last_cons. f_equal. simpl. lia.
+    + change (count_step (nr, c) (p, false)) with (nr, c). rewrite IH.
+      change (selected ((p, false) :: m)) with (selected m). reflexivity.
+Qed.
+
+(* the decision is a function of `selected` only: exactly one key with value true *)
+Lemma stdout_page_spec_l : forall m,
+  stdout_page m = match selected m with [p] => Some p | _ => None end.
+Proof.
+  intros m. unfold stdout_page, count_loop. rewrite count_loop_acc. simpl.
+  destruct (selected m) as [|p [|q l]]; reflexivity.
+Qed.
+
+Lemma filter_perm : forall (A : Type) (f : A -> bool) (l l' : list A),
+  Permutation l l' -> Permutation (filter f l) (filter f l').
+Proof.
+  intros A f l l' H. induction H as [|x l l' H IH|x y l|l l' l'' H1 IH1 H2 IH2]; simpl.
+  - constructor.
+  - destruct (f x); [constructor|]; exact IH.
+  - destruct (f x), (f y); try apply Permutation_refl; apply perm_swap.
+  - eapply Permutation_trans; eassumption.
+Qed.
+
+(* Go iterates a map in arbitrary order: the decision does not depend on it *)
+Lemma stdout_page_perm_l : forall m m', Permutation m m' -> stdout_page m = stdout_page m'.
+Proof.
+  intros m m' H. rewrite !stdout_page_spec_l.
+  assert (Hs : Permutation (selected m) (selected m')).
+  { unfold selected. apply Permutation_map. apply filter_perm. exact H. }
+  destruct (selected m) as [|p [|q l]] eqn:E.
+  - apply Permutation_nil in Hs. rewrite Hs. reflexivity.
+  - apply Permutation_length_1_inv in Hs. rewrite Hs. reflexivity.
+  - pose proof (Permutation_length Hs) as Hl. simpl in Hl.
+    destruct (selected m') as [|p' [|q' l']]; simpl in Hl; try discriminate; reflexivity.
+Qed.
+
+(* stdout mode = file mode: stdout carries the document exactly when file mode writes exactly
+   one file, and then it is that file; otherwise nothing and a non-zero exit status *)
+Lemma stdout_mode_spec_l : forall doc m,
+  stdout_mode doc m = match file_mode_outputs doc m with
+                      | [d] => (d, 0%Z)
+                      | _ => ([], 1%Z)
+                      end.
+Proof.
+  intros doc m. unfold stdout_mode, file_mode_outputs. rewrite stdout_page_spec_l.
+  destruct (selected m) as [|p [|q l]]; reflexivity.
+Qed.
+
+(* counting keys instead of true values is wrong in both directions *)
+Lemma naive_stdout_page_wrong :
+  (exists m, stdout_page m = Some 3%Z /\ naive_stdout_page m = None)
+  /\ (exists m, stdout_page m = None /\ naive_stdout_page m = Some 2%Z).
+Proof.
+  split.
+  - exists [(2%Z, false); (3%Z, true)]. vm_compute. split; reflexivity.
+  - exists [(2%Z, false)]. vm_compute. split; reflexivity.
+Qed.
+
+(* the generated table of page-selection consumers: whoever ranges over the map counts the
+   entries whose VALUE is true and insists on exactly one; nobody uses len() or indexing *)
+Definition sel_row_ok (r : sel_row) : bool :=
+  implb (s_ranges r) (s_counts_by_value r && s_single_guard r)
+  && negb (s_uses_len r) && negb (s_uses_index r).
+
+Definition sel_table_has_stdout_fn : bool :=
+  existsb (fun r => String.eqb (s_name r) "extractSelectedPageToStdout" && s_ranges r) sel_table.
+
+Lemma sel_table_ok : forallb sel_row_ok sel_table = true /\ sel_table_has_stdout_fn = true.
+Proof. vm_compute. split; reflexivity. Qed.
+
+Lemma sel_rows_l : forall r, In r sel_table ->
+  s_uses_len r = false /\ s_uses_index r = false
+  /\ (s_ranges r = true -> s_counts_by_value r = true /\ s_single_guard r = true).
+Proof.
+  intros r Hin.
+  pose proof (proj1 (forallb_forall sel_row_ok sel_table) (proj1 sel_table_ok) r Hin) as H.
+  unfold sel_row_ok in H.
+  apply andb_true_iff in H; destruct H as [H H3].
+  apply andb_true_iff in H; destruct H as [H1 H2].
+  apply negb_true_iff in H2. apply negb_true_iff in H3.
+  split; [exact H2|]. split; [exact H3|].
+  intros Hr. rewrite Hr in H1. simpl in H1. apply andb_true_iff in H1. exact H1.
+Qed.
